@@ -119,6 +119,10 @@ TimesOK(e, r) ==
          /\ e.post.c = "ok"
          /\ e.post[e.f] = e.tv
          /\ \A f \in {"cr", "mo", "ac"} \ {e.f} : Keep(e, f)
+    \* "where it does not [support the setter], the call reports not-supported and changes nothing": not even a
+    \* field the configuration cannot set (an adapter that copies the entry up before it finds out would change it)
+    [] e.op = "set_time" /\ e.res.c = "not_supported" ->
+         (e.pre.p.c = "ok" /\ e.post.c = "ok") => \A f \in {"cr", "mo", "ac"} : e.post[f] = e.pre.p[f]
     [] e.op = "set_time" /\ e.res.c # "ok" ->
          (e.pre.p.c = "ok" /\ e.post.c = "ok") => \A f \in {"cr", "mo", "ac"} : Keep(e, f)
     \* appending preserves the creation time on the in-memory backend (and through adapters that
